@@ -49,6 +49,8 @@ class IdentityEliminationPass(ir.passes.InPlacePass):
        we can still do the elimination, but the value `x` should be renamed to be `y`.
     3. If `y` is a graph-output and `x` is a graph-input, we cannot eliminate
        the node. It should be retained.
+    4. If `y` is an output of a subgraph and `x` is defined in an outer graph, the
+       node is retained as well.
     """
 
     def call(self, model: ir.Model) -> ir.passes.PassResult:
@@ -97,6 +99,11 @@ class IdentityEliminationPass(ir.passes.InPlacePass):
         if output_is_graph_output and (
             input_value.is_graph_input() or input_value.is_initializer()
         ):
+            return False
+
+        # Case 4: The node output is a graph output and the node input is defined in another
+        # (outer) graph - keep the node, because a graph cannot output a value it does not define
+        if output_is_graph_output and input_value.graph is not graph_like:
             return False
 
         # Copy over shape/type if the output has more complete information
